@@ -243,7 +243,8 @@ claim("C04", "Lean 4 theorems (Mathlib change of variables) about definitions re
       "(the quadrature oracle covers them); spline transformers inside Coupling/MAF are covered in one dimension only; excluded parameter point w = 0 of Planar (the code returns NaN there). The correspondence is C03's plus the network "
       "models' (netinv, bnafld), Planar's and the permutation layers', all re-run by C04's check.", "DESIGN.md §5 C04")
 
-claim("C06", "Lean 4 theorems about a hand-written executable model of the batching layer + differential correspondence with the real methods",
+claim("C06", "Lean 4 theorems about a hand-written executable model of the batching layer, proved equal to the public wrappers REGENERATED from the source on every run "
+      "(tools/py2lean/py2meth.py -> Gen/DistPublicGen.lean) + differential correspondence of both with the real methods",
       "In the model of _vectorize/_check_shapes/_get_sample_keys/_get_ufunc_signature and of jnp.vectorize's signature parsing, broadcasting and element "
       "pairing, for all event/condition shapes, sample_shapes and leading batch shapes of any rank and size: the signature text parses back to exactly the "
       "declared core shapes; condition.shape[:-cond_ndim or None] ++ cond_shape = condition.shape (incl. cond_ndim = 0); output shapes are sample_shape + "
@@ -251,19 +252,32 @@ claim("C06", "Lean 4 theorems about a hand-written executable model of the batch
       "slices NumPy broadcasting pairs at that index (x[i] with condition[i]); one key per output element, all distinct when split is injective; the result is a "
       "function of (key, shapes, in-bounds data); a call is accepted iff trailing dims match the declared shapes and the batch shapes broadcast. The model's "
       "signature strings, parser, output shapes/exception classes, element pairing, key shapes, key/draw distinctness and determinism are compared with the real "
-      "code on every run (every event/condition shape of rank 0-2 in the thorough tier).",
-      "Trusted: Lean 4.33 kernel, axioms propext/Classical.choice/Quot.sound (audited per run); Model/Vectorize.lean is hand-written and tied by correspondence only; "
+      "code on every run (every event/condition shape of rank 0-2 in the thorough tier). ON THE REGENERATED CODE: log_prob / sample / sample_and_log_prob, ndim / cond_ndim, "
+      "_vectorize (in_shapes / out_shapes tables, excluded set, the raise condition of _check_shapes' wrapper), _get_sample_keys and _get_ufunc_signature are translated statement by "
+      "statement from distributions.py / utils.py over a small hand-written world (jnp.vectorize and jr.split stay primitives) and proved equal to the hand model's functions for every "
+      "distribution object, shape, array and private method, accepted or rejected (gen_ufunc_signature_eq, gen_check_shapes_eq, gen_vectorize_eq, gen_sample_keys_eq, "
+      "gen_log_prob_wrapper_eq, gen_sample_wrapper_eq, gen_sample_and_log_prob_wrapper_eq); the output-shape, element-pairing, distinct-key and zero-size statements are restated on the "
+      "generated definitions, which are also run against the real methods.",
+      "Trusted: Lean 4.33 kernel, axioms propext/Classical.choice/Quot.sound (audited per run); the translator py2meth.py with its typing sheet targets_dist_public.py and "
+      "Model/DistPublicWorld.lean (hand-written meaning of jnp.vectorize = the hand model's pipeline with signature string / excluded set / checking wrapper as arguments, jr.split, "
+      "arraylike_to_array, key reshape, isnan/where, str/replace/join), validated by the correspondence; the jnp.vectorize part of Model/Vectorize.lean is hand-written and tied by correspondence only; "
+      "parameter defaults are not modelled; "
       "jr.split is abstract (assumed injective in the index; distinctness is measured). Keys are legacy uint32[2] keys. Zero-sized sample shapes/condition batches are "
       "covered (accepted since /repo 2d206ec; the previous max(1, prod) key_size rule is kept as a model variant that rejects them).", "DESIGN.md §5 C06")
 
-claim("C17", "Lean 4 theorems about a hand-written executable model of train/losses.py and, for the gradient clause, about the reverse-mode calculus of C18 "
+claim("C17", "Lean 4 theorems about a hand-written executable model of train/losses.py proved equal to losses.py REGENERATED from the source on every run "
+      "(tools/py2lean/py2meth.py -> Gen/LossesGen.lean) and, for the gradient clause, about the reverse-mode calculus of C18 "
       "extended by stop_gradient (expression trees assembled from kernels regenerated from the source) + Float correspondence with the real losses and with jax.grad of the real ElboLoss",
       "For every distribution record, batch size, sample count, n_contrastive < batch and every realisation of the random choice: the model of "
       "MaximumLikelihoodLoss is -(sum of log p(x_i|c_i))/batch; the model of ElboLoss is the mean of log q(x) - target(x) over the samples of the per-sample keys "
       "and has the same value with and without stick-the-landing whenever sample_and_log_prob is consistent with sample + log_prob (C03); every row of "
       "_get_contrastive_idxs has exactly n_contrastive pairwise distinct indices, none its own, all in range; the model of ContrastiveLoss equals the mean softmax "
       "cross-entropy -log(e^pos/(e^pos + sum e^neg)), is never negative (logsumexp(.. ++ [pos]) >= pos), and raises exactly when batch <= n_contrastive (or the "
-      "condition batch differs). GRADIENT CLAUSE (reverse-mode calculus Ad.Expr with JAX's cotangent rules + Expr.stopGrad = lax.stop_gradient: forward identity, reverse a symbolic zero): "
+      "condition batch differs). ON THE REGENERATED CODE: MaximumLikelihoodLoss.__call__, ElboLoss.__init__/__call__ (both stick_the_landing branches), "
+      "ContrastiveLoss.__init__/__call__ (guard, single_x_loss closure, filter_vmap, mean) and _get_contrastive_idxs are translated statement by statement over a hand-written world "
+      "(abstract eqx.combine / unwrap / distribution methods / jr.split; jr.choice(replace=False) = a prefix of an abstract permutation of the candidates - the one guarantee taken from JAX) "
+      "and proved equal to the hand model for every world, scalar type and input (gen_mle_eq, gen_elbo_eq, gen_contrastive_idxs_eq, gen_contrastive_eq); the value theorems are restated on "
+      "the generated definitions (gen_mle_def, gen_elbo_def, gen_elbo_stl_same_value, gen_contrastive_idxs_valid, gen_contrastive_def, gen_contrastive_nonneg), which are also run against the real losses. GRADIENT CLAUSE (reverse-mode calculus Ad.Expr with JAX's cotangent rules + Expr.stopGrad = lax.stop_gradient: forward identity, reverse a symbolic zero): "
       "for EVERY expression-level reparameterised sample x(theta, eps) (any number of components, later ones may use earlier ones), EVERY expression log q_phi(x) and EVERY parameter-free "
       "target, every environment, cotangent and number domain: log q evaluated with stop_gradient(params) has the same value, and its reverse pass is the plain one with exactly the "
       "adjoints of the trainable leaves deleted (substitution lemma, an equality of adjoint lists); hence with stick-the-landing the adjoint of every trainable leaf IS the path derivative "
@@ -274,7 +288,9 @@ claim("C17", "Lean 4 theorems about a hand-written executable model of train/los
       "(conditional and unconditional) with the actual indices of _get_contrastive_idxs on every run; the reverse-mode model (Float) is compared with eqx.filter_value_and_grad of the real "
       "ElboLoss(stick_the_landing=True/False) - value and every trainable leaf's adjoint, same base noise - on Normal, Transformed(Normal, Exp/Tanh/SoftPlus) and Affine/Tanh/Exp/SoftPlus chains "
       "in 1-3 dimensions, and the decomposition plain = STL + score is checked on the real code alone.",
-      _TB + " Model/Losses.lean is a hand model tied by correspondence only. The gradient theorems are about the expression calculus (scalar straight-line code with let, select, max/min, "
+      _TB + " Model/Losses.lean is a hand model tied by correspondence AND by proof to the regenerated losses; trusted for that tie: the translator py2meth.py, its sheet targets_losses.py and "
+      "Model/LossWorld.lean (the meaning of the library calls: public batched log_prob/sample/sample_and_log_prob as C06 proves them, stop_gradient = identity on values, vmap/filter_vmap, logsumexp, mean, x[idxs]); "
+      "parameter defaults are not modelled. The gradient theorems are about the expression calculus (scalar straight-line code with let, select, max/min, "
       "vector lookup, stop_gradient): that JAX's autodiff implements these cotangent rules is trusted and measured (rtol 1e-8) on elementwise flows; Model/ElboAd.lean's wiring of "
       "Transformed/Chain/BijectionReparam/norm.logpdf/mean around the generated kernels is hand-written and tied by that correspondence; network conditioners (coupling, MAF) are outside the "
       "expression language (for them the gradient clause is checked only through the real-code oracle on elementwise flows and the closed-form Normal check). The plain branch is modelled as "
